@@ -756,7 +756,7 @@ def fd_oracle(spec):
             cs.spec = start      # start from the solution of the unshifted problem
             if c.kind == 'ls':
                 Ws, kws = weight_matrix(cs)
-                require(np.allclose(Ws, W, rtol=1e-9, atol=0), 'weights changed under a constant shift of one datum')
+                require(np.allclose(Ws, W, rtol=1e-9, atol=1e-11 * float(np.max(np.abs(W)))), 'weights changed under a constant shift of one datum')
                 out.append(judge_ls(cs, run_ls(cs, kws), Ws))
             else:
                 out.append(judge_tls(cs, run_tls(cs)))
